@@ -46,6 +46,9 @@ pub struct Ctx {
     pub nshards: u64,
     pub evals: u64,
     pub hashes: HashSet<u64>,
+    /// non-trivial cases of exhaustive enumerations: distinct by construction, counted without storing a hash
+    pub distinct_by_construction: u64,
+    pub enumerated: bool,
     pub counters: BTreeMap<String, u64>,
     pub maxima: BTreeMap<String, f64>,
     pub samples: BTreeMap<String, Vec<Value>>,
@@ -74,6 +77,8 @@ impl Ctx {
             nshards,
             evals: 0,
             hashes: HashSet::new(),
+            distinct_by_construction: 0,
+            enumerated: false,
             counters: BTreeMap::new(),
             maxima: BTreeMap::new(),
             samples: BTreeMap::new(),
@@ -135,8 +140,18 @@ impl Ctx {
     pub fn case(&mut self, nontrivial: bool, hash: u64) {
         self.evals += 1;
         if nontrivial {
-            self.hashes.insert(hash);
+            if self.enumerated {
+                self.distinct_by_construction += 1;
+            } else {
+                self.hashes.insert(hash);
+            }
         }
+    }
+
+    /// While set, cases come from a complete enumeration of pairwise different inputs: they are counted as distinct
+    /// without hashing (hundreds of millions of hashes would only cost memory).
+    pub fn set_enumerated(&mut self, on: bool) {
+        self.enumerated = on;
     }
 
     pub fn case_bytes(&mut self, nontrivial: bool, bytes: &[u8]) {
@@ -213,6 +228,7 @@ impl Ctx {
             "shard": self.shard,
             "evals": self.evals,
             "distinct_local": self.hashes.len(),
+            "distinct_by_construction": self.distinct_by_construction,
             "counters": self.counters,
             "maxima": self.maxima,
             "samples": self.samples,
